@@ -4,12 +4,12 @@ CONSTANTS
   Waiters = {w1}
   None = none
   RunP = run
-  MaxSeq = 3
-  Steps = {1, 2}
-  Wants = {2, 4}
-  Timeouts = {2, 1000000000}
+  MaxSeq = 2
+  Steps = {1}
+  Wants = {2, 3}
+  Timeouts = {1}
   UpdCap = 10
-  MaxTime = 3
+  MaxTime = 2
   Strategy = "best-ping"
   Rtt0 <- Rtt_10
   MaxFlips = 1
